@@ -738,7 +738,10 @@ func runC15(r *Run, verifDir string) {
 			}
 		case *ssa.Store:
 			if _, fld, ok := fieldAddrOf(x.Addr); ok && fname(fld) == "idPlaceholder" {
-				setsPlaceholder = true
+				// an explicit initialisation with the empty string is the zero value spelled out
+				if c, isC := x.Val.(*ssa.Const); !(isC && c.Value != nil && isStringConst(c) && constStringVal(c) == "") {
+					setsPlaceholder = true
+				}
 			}
 		case *ssa.Call:
 			if callID(&x.Call).is("context", "", "WithValue") {
@@ -793,6 +796,11 @@ func runC15(r *Run, verifDir string) {
 	} else {
 		var nbc *ssa.Call
 		var first *ssa.Call
+		var firstCtx ssa.Value
+		chainFns := map[*ssa.Function]bool{}
+		for _, ch := range findChains(p) {
+			chainFns[ch.k] = true
+		}
 		allInstrs(top, func(in ssa.Instruction) {
 			c, ok := in.(*ssa.Call)
 			if !ok {
@@ -801,12 +809,17 @@ func runC15(r *Run, verifDir string) {
 			if callID(&c.Call).is(srvPath, "", "newBatchContext") {
 				nbc = c
 			}
-			// the call that starts the chain: a call of a func value with (ctx, req)
-			if c.Call.StaticCallee() == nil && !c.Call.IsInvoke() && len(c.Call.Args) == 2 && typeName(c.Call.Args[0].Type()) == "Context" {
-				first = c
+			// the call that starts the chain: a call of a func value with (ctx, req), or of the continuation method
+			// (a chain kept as a value type with a `next` method) with its receiver in front
+			sc := c.Call.StaticCallee()
+			if (sc == nil && !c.Call.IsInvoke() && len(c.Call.Args) == 2) || (sc != nil && chainFns[sc] && len(c.Call.Args) == 3) {
+				a := c.Call.Args[len(c.Call.Args)-2]
+				if typeName(a.Type()) == "Context" {
+					first, firstCtx = c, a
+				}
 			}
 		})
-		ok := nbc != nil && first != nil && dominatesInstr(nbc, first) && first.Call.Args[0] == ssa.Value(nbc)
+		ok := nbc != nil && first != nil && dominatesInstr(nbc, first) && firstCtx == ssa.Value(nbc)
 		r.Check(ok, "C15.O1", "kmipserver.BatchExecutor.HandleRequest", top.Pos(), "the chain is entered with the context returned by newBatchContext, created on every call", "the middleware/handler chain can run with a context that does not carry this request's own holder (stale or shared placeholder)")
 	}
 	// O2: uses of *batchData values across the package
@@ -919,8 +932,27 @@ func runC15(r *Run, verifDir string) {
 			}
 			nAcc++
 			key := fmt.Sprintf("%s/idPlaceholder#%d", fnKey(fn), nAcc)
+			emptyInit := false
+			if fnKey(fn) == "kmipserver.newBatchContext" {
+				emptyInit = true
+				for _, ref := range *fa.Referrers() {
+					st, isSt := ref.(*ssa.Store)
+					c, isC := func() (*ssa.Const, bool) {
+						if !isSt {
+							return nil, false
+						}
+						c, ok := st.Val.(*ssa.Const)
+						return c, ok
+					}()
+					if !isSt || !isC || c.Value == nil || !isStringConst(c) || constStringVal(c) != "" {
+						emptyInit = false
+					}
+				}
+			}
 			if accessors[fnKey(fn)] {
 				r.OK("C15.O3", key, fa.Pos(), "placeholder accessed in accessor %s", fnKey(fn))
+			} else if emptyInit {
+				r.OK("C15.O3", key, fa.Pos(), "the constructor initialises the placeholder with the empty string")
 			} else {
 				r.Bad("C15.O3", key, fa.Pos(), "the placeholder is accessed directly in %s, outside its three accessors", fnKey(fn))
 			}
@@ -1256,15 +1288,6 @@ func c15O5(r *Run) {
 		st := derefStruct(fa.X.Type())
 		return st != nil && fname(st.Field(fa.Field)) == "idPlaceholder"
 	}
-	// a return is excused when it lies on the "no holder" edge (bd == nil)
-	noHolder := func(b *ssa.BasicBlock) bool {
-		for _, dc := range dominatingConds(b) {
-			if bo, ok := dc.cond.(*ssa.BinOp); ok && (isNilConst(bo.Y) || isNilConst(bo.X)) && (bo.Op == token.EQL) == dc.outcome {
-				return true
-			}
-		}
-		return false
-	}
 	strParam := func(fn *ssa.Function) *ssa.Parameter {
 		for _, prm := range fn.Params {
 			if b, ok := prm.Type().Underlying().(*types.Basic); ok && b.Info()&types.IsString != 0 {
@@ -1304,22 +1327,37 @@ func c15O5(r *Run) {
 			r.Bad("C15.O5", key, bad, "%s stores something else than %s in the placeholder: what later items observe is not what was stored", fnKey(fn), what)
 			return false
 		}
-		for _, b := range fn.Blocks {
-			if len(b.Instrs) == 0 {
-				continue
-			}
-			ret, ok := b.Instrs[len(b.Instrs)-1].(*ssa.Return)
-			if !ok || noHolder(b) {
-				continue
-			}
-			dom := false
-			for _, g := range good {
-				if dominatesInstr(g, ret) {
-					dom = true
+		paths, okP := enumeratePaths(fn, 256)
+		if !okP {
+			r.Unk("C15.O5", key, fn.Pos(), "too many paths")
+			return false
+		}
+		for _, path := range paths {
+			stored, absent := false, false
+			for i, b := range path {
+				for _, in := range b.Instrs {
+					for _, g := range good {
+						if in == g {
+							stored = true
+						}
+					}
+				}
+				if cond, isTrue, ok, inf := edgeOnPath(path, i); inf {
+					absent = true // infeasible path: nothing to show
+				} else if ok {
+					if bo, ok := cond.(*ssa.BinOp); ok && (isNilConst(bo.Y) || isNilConst(bo.X)) && (bo.Op == token.EQL) == isTrue {
+						absent = true
+					}
+					if ex, ok := cond.(*ssa.Extract); ok && ex.Index == 1 && !isTrue {
+						if ta, ok := ex.Tuple.(*ssa.TypeAssert); ok && ta.CommaOk {
+							absent = true
+						}
+					}
 				}
 			}
-			if !dom {
-				pos := ret.Pos()
+			if !stored && !absent {
+				last := path[len(path)-1]
+				pos := last.Instrs[len(last.Instrs)-1].Pos()
 				if !pos.IsValid() {
 					pos = fn.Pos()
 				}
@@ -1347,19 +1385,52 @@ func c15O5(r *Run) {
 		return
 	}
 	bad, n := token.NoPos, 0
-	for _, b := range getFn.Blocks {
-		if len(b.Instrs) == 0 {
+	absentEdge := func(cond ssa.Value, isTrue bool) bool {
+		if bo, ok := cond.(*ssa.BinOp); ok && (isNilConst(bo.Y) || isNilConst(bo.X)) && (bo.Op == token.EQL) == isTrue {
+			return true
+		}
+		if ex, ok := cond.(*ssa.Extract); ok && ex.Index == 1 && !isTrue {
+			if ta, ok := ex.Tuple.(*ssa.TypeAssert); ok && ta.CommaOk {
+				return true
+			}
+		}
+		return false
+	}
+	gpaths, okP := enumeratePaths(getFn, 256)
+	if !okP {
+		r.Unk("C15.O5", key, getFn.Pos(), "too many paths")
+		return
+	}
+	for _, path := range gpaths {
+		last := path[len(path)-1]
+		ret := last.Instrs[len(last.Instrs)-1].(*ssa.Return)
+		if len(ret.Results) != 1 {
 			continue
 		}
-		ret, ok := b.Instrs[len(b.Instrs)-1].(*ssa.Return)
-		if !ok || len(ret.Results) != 1 {
-			continue
+		absent := false
+		for i := 0; i+1 < len(path); i++ {
+			if cond, isTrue, ok, inf := edgeOnPath(path, i); inf || ok && absentEdge(cond, isTrue) {
+				absent = true
+			}
 		}
-		if noHolder(b) {
+		if absent {
 			continue
 		}
 		n++
-		ld, ok := unspill(ret.Results[0]).(*ssa.UnOp)
+		v := ret.Results[0]
+		for k := len(path) - 1; k > 0; k-- {
+			ph, ok := v.(*ssa.Phi)
+			if !ok || ph.Block() != path[k] {
+				if ok {
+					continue
+				}
+				break
+			}
+			if pi := predIndex(path[k], path[k-1]); pi >= 0 {
+				v = ph.Edges[pi]
+			}
+		}
+		ld, ok := unspill(v).(*ssa.UnOp)
 		if !ok || ld.Op != token.MUL || !isPH(ld.X) {
 			bad = ret.Pos()
 		}
